@@ -76,6 +76,29 @@ pub fn c14_check_id(dd: &DirData, lk: Option<&Likely>, l: &str, s: Option<&str>,
             Err(p) => out.push(fail("panic", p)),
         }
     }
+    // ... also not the registered real-world variants (a rotating one for every identifier; all of them for
+    // the CLDR locales and for script-less identifiers of right-to-left-listed languages)
+    {
+        use std::cell::Cell;
+        thread_local! { static ROT: Cell<usize> = Cell::new(0); }
+        let lexv = crate::lexicon::VARIANTS;
+        let all = cldr_locale.is_some() || (s.is_none() && dd.rtl_langs.contains(l)) || ALL_LEXICON_VARIANTS.with(|c| c.get());
+        let start = ROT.with(|c| {
+            let v = c.get();
+            c.set(v.wrapping_add(1));
+            v
+        });
+        let n = if all { lexv.len() } else { 1 };
+        for k in 0..n {
+            let Ok(v) = lexv[(start + k) % lexv.len()].parse::<Variant>() else { continue };
+            let li2 = LanguageIdentifier::from_parts(lang, script, region, &[v]);
+            match guard(|| li2.character_direction()) {
+                Ok(d) if lib_dir(d) == got => {}
+                Ok(d) => out.push(fail("variants-matter", format!("[{}] {} is {:?} but {} is {:?}", cfgname, li, got, li2, lib_dir(d)))),
+                Err(p) => out.push(fail("panic", p)),
+            }
+        }
+    }
     // (1)/(5) the CLDR locale list
     if let Some(cl) = cldr_locale {
         if FEATURE_ON {
@@ -96,7 +119,13 @@ pub fn c14_check_id(dd: &DirData, lk: Option<&Likely>, l: &str, s: Option<&str>,
     (out, class)
 }
 
+thread_local! {
+    /// replay / minimisation: try every lexicon variant on every identifier (the workload rotates through them)
+    pub static ALL_LEXICON_VARIANTS: std::cell::Cell<bool> = std::cell::Cell::new(false);
+}
+
 pub fn c14_replay(v: &Value) -> Vec<Fail> {
+    ALL_LEXICON_VARIANTS.with(|c| c.set(true));
     let dd = match DirData::load() {
         Ok(d) => d,
         Err(e) => return vec![fail("harness", e)],
